@@ -18,7 +18,8 @@ RULE = ('random pairs of labelings of the same frames (2..12 states each, arbitr
         'Compared: |value - exact rational| <= 1e-10, error kinds. Non-trivial: neither labeling '
         'refines the other.'
         ' Added classes: int8/uint8 index-like labelings with 10..12 x 12 states, the same StateTraj objects compared repeatedly and in swapped roles, zero-length pieces in the splittings, strided views, frame counts at and around powers of two, 3 worker threads in the quick tier (5 and 2 in the thorough tier).'
-        " Later: one contingency cell with > 46341 frames, both labelings single-state and equal (rejected), int8/int16 gapped labelings spanning more than the type's maximum.")
+        " Later: one contingency cell with > 46341 frames, both labelings single-state and equal (rejected), int8/int16 gapped labelings spanning more than the type's maximum."
+        ' Fifth/sixth batch: labelings handed over as LumpedStateTraj, skewed populations.')
 TRUSTED = ['float summation order of the prange reduction (bounded by the 1e-10 tolerance)']
 ASSUMPTIONS = ['labels within +-2^29']
 BATCH = 3000
